@@ -291,7 +291,13 @@ func valueWays(v ssa.Value, scope []*ssa.Function, base []flow.Fact) []valueWay 
 					if !feasibleReturn(cl, ret, known) {
 						continue
 					}
-					rec(ret.Results[idx], with(flow.FactsAt(b), b, cl), depth+1)
+					// a result that is a phi of the return block itself is chosen on the edges into that block (they
+					// are recorded when the phi is entered), not in the block where they join
+					at := b
+					if phi, isPhi := ret.Results[idx].(*ssa.Phi); isPhi && phi.Block() == b {
+						at = nil
+					}
+					rec(ret.Results[idx], with(flow.FactsAt(b), at, cl), depth+1)
 				}
 			}
 			return true
